@@ -126,6 +126,11 @@ def check_input(torch, c, stats):
         want = torch.ones_like(A) if n == 1 else torch.eye(n, dtype=dt)
         if not torch.equal(Q, want):
             out.append((case, "diagonal-flagged input does not yield the identity"))
+        # a caller may refresh its stored basis in place (state.copy_(new)); a later call must still yield the identity
+        Q.mul_(3.0)
+        Q2 = mf.matrix_eigenvectors(A, eigenvector_computation_config=EighEigenvectorConfig(), is_diagonal=True)
+        if not torch.equal(Q2, want):
+            out.append((case, "diagonal-flagged input does not yield the identity after an earlier result was modified in place (shared tensor returned)"))
         # the flag takes precedence for every eigenvector method, also for a diagonal that is not sorted ascending
         Ad = torch.tensor(np.diag(lam[::-1].copy()), dtype=dt)
         for est_kind in ("zero", "identity", "perm"):
